@@ -48,7 +48,9 @@ HttpRequestMethod::HttpRequestMethodXXX(char const *begin)
     for (++theMethod; theMethod < Http::METHOD_ENUM_END; ++theMethod) {
         // RFC 2616 section 5.1.1 - Method names are case-sensitive
         // NP: this is not a HTTP_VIOLATIONS case since there is no MUST/SHOULD involved.
-        if (0 == image().caseCmp(begin, end-begin)) {
+        // SBuf::caseCmp(s, n) looks at the first n bytes only: without the length check
+        // any prefix of a registered method name (e.g., "GE") would be that method
+        if (image().length() == static_cast<SBuf::size_type>(end-begin) && 0 == image().caseCmp(begin, end-begin)) {
 
             // relaxed parser allows mixed-case and corrects them on output
             if (Config.onoff.relaxed_header_parser)
